@@ -11,7 +11,7 @@ use authentication::registry_based::Client;
 #[cfg(feature = "rt_doc")]
 use macros::{Getter, RuntimeDoc};
 use serde::{Deserialize, Serialize};
-use toml_edit::{Document, Item};
+use toml_edit::{Document, Item, TableLike};
 
 pub type Socks5BuilderResult<T> = Result<T, Socks5Error>;
 
@@ -1497,10 +1497,20 @@ where
         }
     };
 
-    let rules_config = match rules_doc.get("rule").and_then(Item::as_array_of_tables) {
+    // `[[rule]]` tables and `rule = [ { .. }, { .. } ]` are two spellings of the same value
+    let rule_tables: Option<Vec<&dyn TableLike>> = match rules_doc.get("rule") {
+        Some(Item::ArrayOfTables(x)) => Some(x.iter().map(|t| t as &dyn TableLike).collect()),
+        Some(Item::Value(toml_edit::Value::Array(x))) => Some(
+            x.iter()
+                .filter_map(|v| v.as_inline_table().map(|t| t as &dyn TableLike))
+                .collect(),
+        ),
+        _ => None,
+    };
+    let rules_config = match rule_tables {
         Some(rules_array) => {
             let rules: Vec<rules::Rule> = rules_array
-                .iter()
+                .into_iter()
                 .filter_map(|rule_table| {
                     // a condition that is present but not a string is malformed: like any other
                     // malformed condition it matches nothing (it must not read as "no condition")
